@@ -117,6 +117,19 @@ def step(st):
         "; ".join(call(c) for c in st["calls"]), nums(st["fids"]), coq_bool(st["reduced"]))
 
 
+def par_reply(st):
+    if st["rt"] == 7:
+        return "RErr %d" % st["errno"]
+    return "ROk %d %s \"\"" % (st["rt"], nums(st["vals"]))
+
+
+def par(h):
+    """two Tlopen in flight together (harness: doPar): CPar flagsA flagsB replyA replyB [answers of File.Open in call order]"""
+    opens = [c for c in h["calls"] if METH[c["m"]] == "MOpen"]
+    return "CPar %d %d (%s) (%s) [%s]" % (h["a"]["req"]["n"][1], h["b"]["req"]["n"][1], par_reply(h["a"]), par_reply(h["b"]),
+                                          "; ".join(answer(c["ans"]) for c in opens))
+
+
 def hist(h):
     return "CHist [\n    %s]" % ";\n    ".join(step(s) for s in h["steps"])
 
@@ -129,6 +142,9 @@ def cases_text(hists):
     # one definition per step: elaboration of one huge list literal is several times slower
     defs = []
     for i, h in enumerate(hists):
+        if h.get("kind") == "par":
+            defs.append("Definition h_%d : srvcase := %s." % (i, par(h)))
+            continue
         for j, s in enumerate(h["steps"]):
             defs.append("Definition s_%d_%d : ostep := %s." % (i, j, step(s)))
         defs.append("Definition h_%d : srvcase := CHist [%s]." % (i, "; ".join("s_%d_%d" % (i, j) for j in range(len(h["steps"])))))
@@ -187,6 +203,11 @@ def evaluate(ctx, base, hists, which):
             h = g[idx]
             stepno = where.get(idx, (None,) * 4)[{"P04": 1, "P09": 2, "P15": 3}[which]]
             nf += 1
+            if h.get("kind") == "par":
+                ctx.violation("%s:overlap" % ctx.pid, "two %s requests in flight together on one fid: replies %s / %s with %d File.Open call(s) -- "
+                              "a fid opens at most once" % (h["a"]["req"]["t"], par_reply(h["a"]), par_reply(h["b"]),
+                                                          sum(1 for c in h["calls"] if METH[c["m"]] == "MOpen")), {"overlap": h})
+                continue
             st = h["steps"][stepno] if stepno is not None and stepno < len(h["steps"]) else None
             key = "%s:%s" % (ctx.pid, st["req"]["t"] if st else "?")
             ctx.violation(key, "observed behaviour violates %s at step %s of history %s (request %s)" % (
@@ -197,6 +218,11 @@ def evaluate(ctx, base, hists, which):
             h = g[idx]
             stepno = where.get(idx, (None,) * 4)[0]
             nm += 1
+            if h.get("kind") == "par":
+                ctx.note("interleaving model / implementation disagree on an overlap: %s" % str(h)[:700])
+                ctx.broken.append({"kind": "correspondence", "what": "Server/OpenPar.v allows no schedule with the observed replies (overlapping Tlopen)",
+                                   "history": h["id"], "observed": h})
+                continue
             st = h["steps"][stepno] if stepno is not None and stepno < len(h["steps"]) else None
             if nm <= 5:
                 ctx.note("model/implementation disagree: history %s step %s: %s" % (h["id"], stepno, str(st)[:700]))
